@@ -28,7 +28,7 @@ ASSUMPTIONS = ['cookie names are RFC 6265 tokens accepted by http.cookies; value
                'a transport-only change (the value the standard library parses out of the header is still the signed string) is not an alteration',
                'the standard library cookie parser and pickle are trusted; the spy delegates to the real loads']
 
-SUBST = list('Aa0+/=!?"\\;, \0') + ['%', 'Z']
+SUBST = list('Aa0+/=!?"\\;, \0') + ['%', 'Z'] + ['\xe9', '\x80']      # ... and bytes above 0x7f (the header is Latin-1 text)
 SUBST_FULL = [chr(c) for c in range(32, 127)] + ['\0', '\t', '\x7f', '\xe9']      # every printable ASCII symbol and a few others
 NAMES = ['s', 'session', 'a', 'id_1', 'X-y', 'tok.en', 'n~m', 'k!', 'UPPER', 'a1b2']
 SECRETS = ['k', 'secret', 'sé crèt', '日本', 'with space', 'a' * 64, '!?', '0', '\U0001f511key', 'p@ss;word',
